@@ -66,13 +66,31 @@ def react_programs(tick, unit, tf, kind):
         if kind == 'futures':
             oi.update({'sl': 'all', 'sl_d': w})
         out.append(('%s-tp1-reenter-w%d' % (side, w), dict(b, on_open=oo, on_reduced={'reenter': [[1, 0]]}, on_increased=oi)))
+        # a resting entry fills somewhere inside a trading candle and its handler declares an exit AT the fill price (routed to market)
+        sg = -1 if side == 'long' else 1
+        oo2 = {'tp': [[1, 0], [1, w]]}
+        if kind == 'futures':
+            oo2['sl'] = [[2, w]]
+        out.append(('%s-limit-open-tp-at-market-w%d' % (side, w), dict(b, enter={'when': 'flat', 'legs': [[2, sg]]}, on_open=oo2)))
+    # an entry that is kept across trading candles, and a stop that is moved at every trading-candle close
+    b = {'tick': tick, 'unit': unit, 'side': 'long'}
+    ex = {'tp': 'all', 'tp_d': w}
+    if kind == 'futures':
+        ex.update({'sl': 'all', 'sl_d': w})
+    out.append(('long-stop2-keep-w%d' % w, dict(b, enter={'when': 'flat', 'legs': [[1, 2]]}, on_open=ex, cancel_entry=False)))
+    if kind == 'futures':
+        out.append(('long-market-trail-w%d' % w, dict(b, enter={'when': 'flat', 'legs': [[1, 0]]}, on_open=ex, cancel_entry=True,
+                                                     update=[{'at': i, 'sl': 'all', 'sl_d': w - 1, 'tp': 'keep'} for i in range(1, 12)])))
     return out
 
 
-def all_programs(tick, unit, tf, kind, npr):
+def all_programs(tick, unit, tf, kind, npr, quick=False):
     P = programs(tick, unit, tf, kind)[:npr]
     if tf != '1m':
-        P = P + react_programs(tick, unit, tf, kind)
+        R = react_programs(tick, unit, tf, kind)
+        if quick and T[tf] >= 15:
+            R = R[::2]          # long sessions: every second reacting program in the quick tier
+        P = P + R
     return P
 
 
@@ -128,7 +146,7 @@ def words(gen):
             yield mins, '-'.join(w)
 
 
-def build(minutes, tf, droutes, kind, spec, emb, fast):
+def build(minutes, tf, droutes, kind, spec, emb, fast, rem=0):
     base, tick, unit = emb
     span = T[tf]
     for d in droutes:
@@ -137,6 +155,8 @@ def build(minutes, tf, droutes, kind, spec, emb, fast):
     w = lead + list(minutes)
     while len(w) % span:
         w.append(progs.SHAPES['FLAT'])
+    # a session that does not end on a trading-candle boundary: rem trailing minutes (rising, so resting orders can still fill)
+    w += [MIN['U']] * rem
     rows = S.make_candles(w, base + 40 * tick, tick)
     cfg = {'type': kind, 'fee': 0.001 if kind == 'futures' else 0.0, 'leverage': 2, 'balance': 100 * (base + 40 * tick) * unit}
     return {'cfg': cfg, 'routes': [{'symbol': 'BTC-USDT', 'timeframe': tf, 'spec': spec}], 'data_routes': droutes,
@@ -156,11 +176,12 @@ def summary(r):
 
 
 def _diff(args):
-    minutes, wname, tf, droutes, kind, pname, spec, emb = args
-    ident = {'word': wname, 'tf': tf, 'data_routes': droutes, 'kind': kind, 'program': pname, 'embedding': list(emb)}
+    minutes, wname, tf, droutes, kind, pname, spec, emb = args[:8]
+    rem = args[8] if len(args) > 8 else 0
+    ident = {'word': wname, 'tf': tf, 'data_routes': droutes, 'kind': kind, 'program': pname, 'embedding': list(emb), 'rem': rem}
     out = {'viols': [], 'class': 'compared'}
-    ra = S.run_session(build(minutes, tf, droutes, kind, spec, emb, False))
-    rb = S.run_session(build(minutes, tf, droutes, kind, spec, emb, True))
+    ra = S.run_session(build(minutes, tf, droutes, kind, spec, emb, False, rem))
+    rb = S.run_session(build(minutes, tf, droutes, kind, spec, emb, True, rem))
     if ra['error'] or rb['error']:
         if bool(ra['error']) != bool(rb['error']) or (ra['error'] and ra['error'][0] != rb['error'][0]):
             out['viols'].append(Violation('one-simulator-raises', {'normal': ra['error'][0] if ra['error'] else None, 'fast': rb['error'][0] if rb['error'] else None},
@@ -193,10 +214,21 @@ def run(ctx):
     emb = ctx.embedding
     jobs = []
     for tf, droutes, kind, gen, npr in configs(ctx.quick):
-        P = all_programs(emb[1], emb[2], tf, kind, npr)
+        P = all_programs(emb[1], emb[2], tf, kind, npr, ctx.quick)
         for minutes, wname in words(gen):
             for pname, spec in P:
                 jobs.append((minutes, wname, tf, droutes, kind, pname, spec, emb))
+    # sessions that end inside a trading candle (the fast simulator's last chunk is shorter): 1 and tf-1 trailing minutes
+    for tf, droutes, kind, gen, npr in configs(ctx.quick):
+        if tf not in ('3m', '5m', '15m') or (ctx.quick and droutes):
+            continue
+        P = all_programs(emb[1], emb[2], tf, kind, 3)
+        for k, (minutes, wname) in enumerate(words(gen)):
+            if ctx.quick and k % 4:
+                continue
+            for pname, spec in P:
+                for rem in (1, T[tf] - 1):
+                    jobs.append((minutes, wname, tf, droutes, kind, pname, spec, emb, rem))
     # micro-priced and very expensive symbols: the 3m futures configuration again on each extreme scale
     for sc in core.SCALES:
         tf, droutes, kind, gen, npr = [c for c in configs(ctx.quick) if c[0] == '3m' and c[2] == 'futures' and not c[1]][0]
@@ -236,6 +268,6 @@ def replay(case, ctx):
             for minutes, wname in words(gen):
                 if wname == case['word']:
                     P = dict(all_programs(emb[1], emb[2], tf, kind, 99))
-                    r = _diff((minutes, wname, tf, droutes, kind, case['program'], P[case['program']], emb))
+                    r = _diff((minutes, wname, tf, droutes, kind, case['program'], P[case['program']], emb, case.get('rem', 0)))
                     return [Violation.from_json(v) for v in r['viols']]
     return []
